@@ -40,11 +40,17 @@ def parseOp {α δ} (c : Carrier α δ) (toks : List String) (isBool : Bool) : O
   | ["store", d] => (c.parseV d).map .store
   | ["load"] => some .load
   | ["exchange", d] => (c.parseV d).map .exchange
-  | ["cas_strong", e, d] => do let e ← c.parseV e; let d ← c.parseV d; pure (.casStrong e d)
-  | ["cas_weak", e, d, s] => do
-      let e ← c.parseV e; let d ← c.parseV d
-      let s ← (if s = "1" then some true else if s = "0" then some false else none)
-      pure (.casWeak e d s)
+  | [op, e, d] =>
+      -- the three compare_exchange_strong forms (4 orders / one order / (acq_rel, relaxed)) are one model operation
+      if op = "cas_strong" ∨ op = "cas_strong3" ∨ op = "cas_strong4r" then do
+        let e ← c.parseV e; let d ← c.parseV d; pure (.casStrong e d)
+      else none
+  | [op, e, d, s] =>
+      if op = "cas_weak" ∨ op = "cas_weak3" ∨ op = "cas_weak4r" then do
+        let e ← c.parseV e; let d ← c.parseV d
+        let s ← (if s = "1" then some true else if s = "0" then some false else none)
+        pure (.casWeak e d s)
+      else none
   | [op, a] =>
       if isBool then none else
       (c.parseD a).bind fun a =>
@@ -82,11 +88,12 @@ def mkObj (ty init : String) (spec : Bool) : Option Obj :=
       { α := BitVec n, δ := BitVec n, car := bvCarrier n,
         step := if spec then Spec.step else Fiber.step, isBool := false, v := v }
   match ty with
+  | "vu8" => bv 8 | "vi32" => bv 32 | "vu64" => bv 64     -- volatile objects: same values
   | "u8" => bv 8 | "i8" => bv 8 | "u16" => bv 16 | "i16" => bv 16
   | "u32" => bv 32 | "i32" => bv 32 | "u64" => bv 64 | "i64" => bv 64
-  | "ptr" => (intCarrier.parseV init).map fun v =>
+  | "ptr" | "vptr" => (intCarrier.parseV init).map fun v =>
       { α := Int, δ := Int, car := intCarrier, step := if spec then Spec.step else FiberPtr.step, isBool := false, v := v }
-  | "bool" => (boolCarrier.parseV init).map fun v =>
+  | "bool" | "vbool" => (boolCarrier.parseV init).map fun v =>
       { α := Bool, δ := Bool, car := boolCarrier, step := if spec then Spec.step else Fiber.step, isBool := true, v := v }
   | _ => none
 
